@@ -149,6 +149,7 @@ Proof.
     + intros a _. cbn. apply tget_init.
     + exists (nseq 1 (S (N.to_nat (size - 2)))). split; [|split].
       * cbn [gc_new g_free]. change (g_next _) with (g_next (gc_new size)).
+        destruct (N.ltb_spec 1 size); [|lia].
         apply gc_new_chain; lia.
       * apply nseq_nodup.
       * intros a. rewrite nseq_in. unfold in_range. cbn [gc_new g_size g_obj].
